@@ -491,7 +491,9 @@ def run_multi_env(ctx, case):
                 ctx.count("completion_checks")
                 if now != r.makespan():
                     ctx.violation("c06_clock_not_makespan_at_completion", dict(w, clock=now, makespan=r.makespan()))
-        last, completed = (now, comp) if judged else (None, set())
+        # (what is read right after the filter was re-assigned may still be an answer cached for the
+        # old filter: it is neither judged nor taken as the baseline of what follows)
+        last, completed = (now, comp) if judged and event != "filter_changed" else (None, set())
     ctx.note_case(case, True, fingerprint="multi:%s:%s:%s" % (case["seed"], case["constructor_filter"],
                                                               case.get("setter")))
 
